@@ -45,10 +45,15 @@ def tables():
             enums.append((n, [m.name for m in cls]))
     if not any(n == "FlowState" for n, _ in dcs) or not any(n == "State" for n, _ in dcs):
         raise TieBroken("name_to_class no longer contains the State/FlowState dataclasses")
+    from nemoguardrails.colang.v2_x.runtime import eval as ev
+
+    # names under which comparison expressions can be re-created (fixes/C11-comparison.diff); before that
+    # repair the serializer knows none of them
+    cmp_ops = sorted(getattr(ev, "COMPARISON_OPERATORS", {}).keys())
     spec_values = [m.value for m in colang_ast.SpecType]
     if not all(isinstance(v, str) for v in spec_values):
         raise TieBroken("SpecType values are no longer strings")
-    return names, dcs, enums, spec_values
+    return names, dcs, enums, spec_values, cmp_ops
 
 
 def run():
@@ -58,7 +63,7 @@ def run():
     ser_tree = parse(SER)
     enc, dec = find_def(ser_tree, "encode_to_dict"), find_def(ser_tree, "decode_from_dict")
     s2j, j2s = find_def(ser_tree, "state_to_json"), find_def(ser_tree, "json_to_state")
-    names, dcs, enums, spec_values = tables()
+    names, dcs, enums, spec_values, cmp_ops = tables()
     dc_l = lean_list([
         "(" + lean_str(n) + ", " + lean_list(["(" + lean_str(f) + ", " + lean_bool(i) + ", " + lean_bool(d) + ")" for f, i, d in fs]) + ")"
         for n, fs in dcs])
@@ -77,6 +82,9 @@ def enums : List (String × List String) := {en_l}
 /-- `SpecType` member values (`SpecType(d["value"])`). -/
 def specTypeValues : List String := {lean_list([lean_str(v) for v in spec_values])}
 
+/-- keys of `eval.COMPARISON_OPERATORS` (empty when the serializer cannot re-create comparison expressions). -/
+def comparisonOps : List String := {lean_list([lean_str(v) for v in cmp_ops])}
+
 /-- `timedelta(seconds=…)` in `_clean_up_state`. -/
 def cleanUpAgeSeconds : Nat := {age}
 
@@ -88,5 +96,5 @@ end NemoVerif.Generated.C11
             "encode_to_dict": fingerprint(enc), "decode_from_dict": fingerprint(dec),
             "state_to_json": fingerprint(s2j), "json_to_state": fingerprint(j2s), "_clean_up_state": fingerprint(fn),
         },
-        "classes": len(names), "dataclasses": len(dcs), "enums": len(enums), "cleanup_age_s": age,
+        "classes": len(names), "dataclasses": len(dcs), "enums": len(enums), "cleanup_age_s": age, "comparison_ops": cmp_ops,
     }
